@@ -9,7 +9,12 @@ a recording stub while a Runner is alive and restored in close().
 Sub-checks
   p2p_exhaustive      all sequences over 27 P2P symbols (3 peers x 8 datagram kinds + configuration / boundary symbols)
   rdac_exhaustive     all sequences over 26 RDAC symbols, started from every one of the 14 reachable steps of peer 0
-  random_histories    Hypothesis RuleBasedStateMachine, both handlers interleaved, random filler / lengths / texts
+  random_histories    Hypothesis RuleBasedStateMachine, both handlers interleaved, random filler / lengths / texts, woven bursts of 2-3 peers
+  interleaved_runs    scripted interleavings of two or three peers' complete identification runs / P2P lives: every cut point, strict
+                      alternation with every lead, every merge order, restarts and garbage in between
+End of every history (finish / op 'solo_check'): every source is compared with the same source's datagrams delivered alone to fresh
+handlers on a fresh storage (emissions, allowed exceptions, completion reports, SNMP reads, final step, record fields except the id).
+Prelude (PRELUDE_OPS): another storage with its own two handlers serves sources with the same addresses as the case's peers.
 """
 from __future__ import annotations
 
@@ -32,7 +37,9 @@ RULE = (
     "start step of peer 0), (b) random interleavings up to 50 (quick) / 150 (thorough) datagrams.  Oracle: reference model "
     "(registered set, stored outbound addresses, per-IP step automaton, completion count) compared with emissions, the step "
     "dictionary, the registered attribute, a field dump of every other peer's record and the callback log after every "
-    "datagram.  Distinct = hash of the op sequence (enumeration: by construction).  Non-trivial: P2P - a request before and "
+    "datagram; at the end of every history (<= 400 datagrams) every source is served once more alone on fresh handlers and must have been "
+    "treated identically (sources sharing their host with another RDAC source excepted); (c) scripted interleavings of 2-3 peers' complete "
+    "13-datagram identification runs and 4-datagram P2P lives at every cut point / alternating / every merge order.  Distinct = hash of the op sequence (enumeration: by construction).  Non-trivial: P2P - a request before and "
     "after the same peer's registration; RDAC - a peer reaches step >= 7, or a one-byte reset arrives at step >= 2."
 )
 ASSUMPTIONS = [
@@ -50,6 +57,9 @@ ASSUMPTIONS = [
     "emitted P2P datagrams are classified by shape only (reject = the single octet 00; acceptance / registration answer = "
     "request length + 1, redirect = + 4, ping answer = same length with the ping marker); their field values are not part of "
     "the statement",
+    "'keeps peers separate' is also read as: what the handlers send to, store for and report about a source does not depend on the datagrams of "
+    "other sources (record ids, which are random, are left out of that comparison; two sources on one host share an identification run by design "
+    "and are left out when both talk to the RDAC handler)",
     "at step 14 a one-byte 0x00 may be answered by at most one datagram to that peer ('no data available'); nothing else is "
     "ever sent after completion",
 ]
@@ -64,6 +74,7 @@ REPEAT_COUNTS = [2, 3, 4, 5, 6, 7, 8, 9, 10, 11, 12, 16, 17, 31, 32, 33, 64, 100
 MARKER_FILLS = ["7e04", "7e0400fd", "fffe", "feff", "0300", "503250", "0a00000014", "0c00000014", "5a5a5a5a", "00", "4100"]
 OUTS = [["10.0.0.1", 50000], ["172.16.0.9", 40000], ["", 0]]
 P2P_PORT, RDAC_PORT = 50000, 50002
+SOLO_MAX_LOG = 400  # histories with more datagrams than this are not replayed source by source at their end
 PING_MARK = bytes([0x0A, 0x00, 0x00, 0x00, 0x14])
 ACK_MARK = bytes([0x0C, 0x00, 0x00, 0x00, 0x14])
 TYPE = {"reg": 0x10, "dmr": 0x11, "rdac": 0x12}
@@ -290,6 +301,9 @@ class Runner:
         self.reset_after_2 = 0
         self.opc = collections.Counter()
         self.flags = collections.Counter()
+        # per-source log for the end-of-history comparison with the same source served alone (see finish)
+        self.log = []
+        self._last = (None, None)
 
     def close(self):
         if not self.closed:
@@ -329,29 +343,112 @@ class Runner:
                 for o in op["ops"]:
                     self.apply(o)
             return
+        if k == "block":  # ops generated together (bursts of several peers woven into each other)
+            self.flags["woven_block"] += 1
+            for o in op["ops"]:
+                self.apply(o)
+            return
         if k == "rdac_run":  # a burst of expected responses (plain ops, applied one by one)
             for _ in range(op["count"]):
                 self.apply({"k": "rdac", "peer": op["peer"], "kind": "expected", "fill": op.get("fill")})
+            return
+        if k == "solo_check":
+            self.solo_check()
             return
         addr = tuple(PEERS[op["peer"] % len(PEERS)])
         self.expect_unchanged = False
         before = self.dump()
         step_before = dict(self.rdac.step)
         done_before = len(self.done)
-        if k == "cfg":
-            out = tuple(OUTS[op["out"] % len(OUTS)])
-            self.storage.match_incoming(addr, auto_create=True, patch={"address_out": out})
-            self.recs.setdefault(addr, {"registered": False, "out": ("", 0)})["out"] = out
-            self.opc["cfg"] += 1
-        elif k == "p2p":
-            self.opc["p2p_" + op["kind"]] += 1
-            self.apply_p2p(op, addr)
-        elif k == "rdac":
-            self.opc["rdac_" + op["kind"]] += 1
-            self.apply_rdac(op, addr)
-        else:
-            raise ValueError(f"bad op {op}")
+        marks = (len(self.tp.sent), len(self.tr.sent), len(self.done), len(_STUB["calls"]))
+        self._last = (None, None)
+        try:
+            if k == "cfg":
+                out = tuple(OUTS[op["out"] % len(OUTS)])
+                self.storage.match_incoming(addr, auto_create=True, patch={"address_out": out})
+                self.recs.setdefault(addr, {"registered": False, "out": ("", 0)})["out"] = out
+                self.opc["cfg"] += 1
+                self._last = (op["out"] % len(OUTS), None)
+            elif k == "p2p":
+                self.opc["p2p_" + op["kind"]] += 1
+                self.apply_p2p(op, addr)
+            elif k == "rdac":
+                self.opc["rdac_" + op["kind"]] += 1
+                self.apply_rdac(op, addr)
+            else:
+                raise ValueError(f"bad op {op}")
+        finally:
+            if len(self.log) <= SOLO_MAX_LOG:
+                self.log.append(self._entry(addr, k, self._last[0], self._last[1], marks, self.tp, self.tr, self.done, self.storage))
         self.compare_state(addr, before, step_before, done_before, k)
+
+    # -- every source once more, alone -----------------------------------------------------------------
+    @staticmethod
+    def _entry(addr, k, payload, exc, marks, tp, tr, done, storage):
+        """what one delivered datagram made the handlers do, in terms that do not depend on the random record ids"""
+        own = [r.id for r in storage.all() if r.address_in == addr]
+        return {"addr": addr, "k": k, "payload": payload, "exc": exc, "p2p_sent": list(tp.sent[marks[0]:]), "rdac_sent": list(tr.sent[marks[1]:]),
+                "completions_with_own_id": [i in own for i in done[marks[2]:]], "snmp_reads_of_own_record": [i in own for i in _STUB["calls"][marks[3]:]]}
+
+    @staticmethod
+    def _final(addr, rdac, storage, with_step):
+        recs = [r for r in storage.all() if r.address_in == addr]
+        return {"step": rdac.step.get(addr[0]) if with_step else None, "records": [dict({f: getattr(r, f) for f in DUMP_FIELDS if f != "id"}, **{a: r.attr(a) for a in DUMP_ATTRS}) for r in recs]}
+
+    def finish(self):
+        self.solo_check()
+
+    def solo_check(self):
+        """Peers are kept separate: what the handlers sent to / stored for / reported about a source during the interleaved history equals
+        what they do when the same datagrams of that source arrive alone at fresh handlers on a fresh storage.  Sources that share their
+        host string with another source that talked to the RDAC handler are left out (one identification run per host, by design)."""
+        if not self.log or len(self.log) > SOLO_MAX_LOG:
+            if self.log:
+                self.flags["solo_check_skipped_long_history"] += 1
+            return
+        from okdmr.dmrlib.protocols.hytera.p2p_datagram_protocol import P2PDatagramProtocol
+        from okdmr.dmrlib.protocols.hytera.rdac_datagram_protocol import RDACDatagramProtocol
+        from okdmr.dmrlib.storage.repeater_storage import RepeaterStorage
+
+        sources = []
+        for e in self.log:
+            if e["addr"] not in sources:
+                sources.append(e["addr"])
+        if len(sources) < 2:
+            return
+        rdac_hosts = collections.Counter(a[0] for a in {e["addr"] for e in self.log if e["k"] == "rdac"})
+        for src in sources:
+            mine = [e for e in self.log if e["addr"] == src]
+            uses_rdac = any(e["k"] == "rdac" for e in mine)
+            if (uses_rdac and rdac_hosts.get(src[0], 0) > 1) or any(e["payload"] is None for e in mine):
+                self.flags["solo_check_left_out_shared_host"] += 1
+                continue
+            storage = RepeaterStorage()
+            p2p = P2PDatagramProtocol(storage, p2p_port=P2P_PORT, rdac_port=RDAC_PORT)
+            tp, tr, done = FakeTransport(), FakeTransport(), []
+            p2p.connection_made(tp)
+            rdac = RDACDatagramProtocol(storage, callback=done.append)
+            rdac.connection_made(tr)
+            for i, e in enumerate(mine):
+                marks = (len(tp.sent), len(tr.sent), len(done), len(_STUB["calls"]))
+                exc = None
+                try:
+                    if e["k"] == "cfg":
+                        storage.match_incoming(src, auto_create=True, patch={"address_out": tuple(OUTS[e["payload"]])})
+                    else:
+                        (p2p if e["k"] == "p2p" else rdac).datagram_received(e["payload"], src)
+                except Exception as x:
+                    if not lib_raised(x):
+                        raise
+                    exc = type(x).__name__
+                alone = self._entry(src, e["k"], e["payload"], exc, marks, tp, tr, done, storage)
+                if alone != e:
+                    diff = {f: [e[f], alone[f]] for f in e if e[f] != alone[f]}
+                    raise Fail("peer_is_served_as_if_it_were_alone", {"source": list(src), "its_datagram_number": i, "interleaved_vs_alone": repr(diff)[:600]}, "the same reaction")
+            got, want = self._final(src, self.rdac, self.storage, uses_rdac), self._final(src, rdac, storage, uses_rdac)
+            if got != want:
+                raise Fail("peer_is_served_as_if_it_were_alone", {"source": list(src), "interleaved": repr(got)[:500]}, {"alone": repr(want)[:500]})
+            self.flags["solo_check_sources"] += 1
 
     def stored_out(self, addr):
         """the outbound address stored in the peer's record right now (None: no record)"""
@@ -375,7 +472,9 @@ class Runner:
             allowed = (ValueError,)
         if kind == "short_ping" and registered:
             allowed = (IndexError,)
+        self._last = (data, None)
         exc = self.call(self.p2p, data, addr, allowed)
+        self._last = (data, type(exc).__name__ if exc is not None else None)
         emitted = self.tp.sent[n0:]
         desc = [[raw.hex(), list(a) if a else None] for raw, a in emitted]
         if len(self.tr.sent) != n0r:
@@ -495,7 +594,9 @@ class Runner:
             want_emit = EMIT.get((s, new), [])
         n0 = len(self.tr.sent)
         n0p = len(self.tp.sent)
+        self._last = (data, None)
         exc = self.call(self.rdac, data, addr, may_raise)
+        self._last = (data, type(exc).__name__ if exc is not None else None)
         emitted = self.tr.sent[n0:]
         desc = [[raw.hex(), list(a) if a else None] for raw, a in emitted]
         if len(data) == 1 and s == 14 and self.rdac.step.get(ip) == 1:
@@ -902,6 +1003,115 @@ def drv_runs(ctx: Ctx, sub: SubCheck):
     ctx.tally.notes.append(f"{sub.name}: every peer-0 symbol repeated {n} times (plain and with garbage interleaved) in 4 P2P modes and from each of the 14 RDAC steps")
 
 
+# ---- scripted interleavings of complete runs (round 7) ---------------------------------------------------------------------
+#
+# Every peer's identification is the fixed script of 13 datagrams (start-up octet, then the response expected at each step), every
+# peer's P2P life the fixed script request / registration / start-ups / ping.  Two or three peers' scripts are interleaved at every
+# cut point, in strict alternation with every lead, and in every merge order of short scripts, with resets and garbage mixed in.
+# Each datagram is judged against the per-peer model; at the end every source is compared with the same source served alone.
+
+RUN_LEN = 13
+PEER_FILL = {0: "4100", 1: "4200", 2: "4f004b00", 3: "4300", 4: "4400", 5: "4500", 6: "4600", 7: "4700"}
+SOLO = {"k": "solo_check"}
+
+
+def _run(peer, a=0, b=RUN_LEN):
+    """datagrams a..b-1 of the peer's identification script (the Runner builds the response expected at the peer's model step)"""
+    return [{"k": "rdac", "peer": peer, "kind": "expected", "fill": PEER_FILL[peer]} for _ in range(a, b)]
+
+
+def _p2p_life(peer, variant=0):
+    reg = {"k": "p2p", "peer": peer, "kind": "reg", "n": 33, "fill": PEER_FILL[peer]}
+    dmr = {"k": "p2p", "peer": peer, "kind": "dmr", "n": 33, "fill": PEER_FILL[peer]}
+    rd = {"k": "p2p", "peer": peer, "kind": "rdac", "n": 34, "fill": PEER_FILL[peer]}
+    ping = {"k": "p2p", "peer": peer, "kind": "ping", "n": 20}
+    return [[dmr, reg, rd, ping], [ping, reg, dmr, rd], [{"k": "cfg", "peer": peer, "out": 1}, rd, reg, rd], [reg, ping, reg, dmr]][variant % 4]
+
+
+def _merges(a, b):
+    """all order-preserving merges of two op lists"""
+    if not a or not b:
+        yield list(a) + list(b)
+        return
+    for rest in _merges(a[1:], b):
+        yield [a[0]] + rest
+    for rest in _merges(a, b[1:]):
+        yield [b[0]] + rest
+
+
+RDAC_PAIRS = [(0, 1), (1, 2), (4, 5), (0, 7), (6, 2)]  # distinct host strings (incl. hosts that differ only in case / spelling)
+RDAC_TRIPLES = [(0, 1, 2), (4, 5, 6), (7, 3, 1)]
+P2P_PAIRS = [(0, 1), (0, 3), (3, 0), (4, 5), (0, 7), (6, 4)]
+
+
+def interleaved_cases(quick: bool):
+    """(class label, ops) pairs"""
+    for a, b in RDAC_PAIRS:
+        for i in range(RUN_LEN + 1):
+            for j in range(RUN_LEN + 1):
+                if quick and (a, b) != RDAC_PAIRS[0] and (i * 14 + j + a) % 3:
+                    continue
+                yield "rdac_two_peers_cut", _run(a, 0, i) + _run(b, 0, j) + _run(a, i) + _run(b, j) + [SOLO]
+        garbage = {"k": "rdac", "peer": a, "kind": "garbage", "hex": "7e0401fd00"}
+        other = {"k": "rdac", "peer": a, "kind": "pfx", "x": 0x00}
+        for i in range(RUN_LEN + 1):
+            for j in (1, 3, 4, 5, 7, 11, 13):
+                for reset in (0, 7):
+                    # b restarts after j datagrams; a (waiting at step i) sends garbage and a data response in between, then finishes
+                    yield "rdac_two_peers_cut_reset_garbage", (_run(a, 0, i) + _run(b, 0, j) + [{"k": "rdac", "peer": b, "kind": "one", "v": reset}, garbage]
+                                                                + _run(b, 0, 2) + ([other] if i not in (3, 4, 6, 10, 12) else []) + _run(a, i) + _run(b, 0, RUN_LEN) + [SOLO])
+        for lead in range(RUN_LEN + 1):
+            ops = _run(a, 0, lead)
+            for n in range(RUN_LEN):
+                ops += (_run(a, lead + n, lead + n + 1) if lead + n < RUN_LEN else []) + _run(b, n, n + 1)
+            yield "rdac_two_peers_alternating", ops + [SOLO]
+    grid = (0, 3, 4, 6, 7, 10, 13) if not quick else (0, 3, 4, 7, 12)
+    for t, (a, b, c) in enumerate(RDAC_TRIPLES):
+        for n, (i, j, k) in enumerate(itertools.product(grid, repeat=3)):
+            order = list(itertools.permutations([(a, i), (b, j), (c, k)]))[(n + t) % 6]
+            yield "rdac_three_peers_cut", _run(a, 0, i) + _run(b, 0, j) + _run(c, 0, k) + [o for p, m in order for o in _run(p, m)] + [SOLO]
+        for l1, l2 in itertools.product((0, 3, 4, 7), repeat=2):
+            ops = _run(a, 0, l1 + l2) + _run(b, 0, l2)
+            for n in range(RUN_LEN):
+                for p, done in ((a, l1 + l2 + n), (b, l2 + n), (c, n)):
+                    ops += _run(p, done, done + 1) if done < RUN_LEN else []
+            yield "rdac_three_peers_round_robin", ops + [SOLO]
+    for a, b in P2P_PAIRS:
+        for va, vb in itertools.product(range(4), repeat=2):
+            if quick and vb != (va + 1 + a) % 4:
+                continue
+            for ops in _merges(_p2p_life(a, va), _p2p_life(b, vb)):
+                yield "p2p_two_peers_every_merge", ops + [SOLO]
+    for a, b in P2P_PAIRS[:4]:
+        # whole lives: registration, RDAC start-up, identification, DMR start-up, ping - cut into each other
+        life = lambda p: _p2p_life(p, 0)[:3] + _run(p) + _p2p_life(p, 1)[2:] + [{"k": "p2p", "peer": p, "kind": "ping", "n": 20}]
+        la, lb = life(a), life(b)
+        for i in range(0, len(la) + 1):
+            for j in range(0, len(lb) + 1, 1 if not quick else 2):
+                yield "whole_lives_cut", la[:i] + lb[:j] + la[i:] + lb[j:] + [SOLO]
+
+
+def drv_interleaved(ctx: Ctx, sub: SubCheck):
+    cases = list(interleaved_cases(ctx.quick))
+    items = list(range(32))
+
+    def work(w, t: Tally):
+        for n in range(w, len(cases), 32):
+            label, ops = cases[n]
+            ctx.run_case(sub.name, oracle_history, {"ops": ops}, t)
+            t.case(sub.name, nontrivial=True, cls=label)
+            if n % 501 == 0:
+                t.sample(sub.name, {"class": label, "n_ops": len(ops)})
+
+    ctx.shards(work, items)
+    ctx.tally.notes.append(f"{sub.name}: {len(cases)} scripted interleavings of complete per-peer scripts: two peers' identification runs cut into each other at all 14 x 14 "
+                           "cut points (plain; with a restart of the second peer, garbage and an unexpected data response in between), in strict alternation with every lead, "
+                           "three peers at a grid of cut points with every finishing order and round robin, every merge order of two peers' 4-datagram P2P lives (4 variants "
+                           "each; also sources that share the host or differ only in its spelling), and whole lives (registration, start-up, identification, start-up, ping) "
+                           "cut into each other; each datagram judged against the per-peer model, and every source compared with the same source served alone")
+
+
+
 # ---- random part -----------------------------------------------------------------------------------------------------
 
 
@@ -949,6 +1159,22 @@ def _strategies():
                       st.tuples(single, noise, single).map(list))
     small = st.sampled_from([2, 3, 4, 5, 6, 7, 8, 9, 10, 11, 12, 16, 17])
     rules["repeat"] = st.fixed_dictionaries({"k": st.just("repeat"), "n": st.one_of(small, small, st.sampled_from(REPEAT_COUNTS)), "ops": block})
+    # two or three peers' identification runs (peer-specific content) woven into each other in short bursts, with restarts, garbage and P2P
+    # datagrams of the same peers in between
+    trio = st.sampled_from(RDAC_PAIRS + RDAC_TRIPLES + [(0, 3), (5, 4, 0)])
+
+    def weave(peers, bursts, extras):
+        ops = []
+        for n, (which, count, extra) in enumerate(bursts):
+            pr = peers[which % len(peers)]
+            ops.append({"k": "rdac_run", "peer": pr, "count": count, "fill": PEER_FILL[pr]})
+            if extra is not None:
+                ops.append(dict(extras[extra % len(extras)], peer=peers[(which + extra) % len(peers)]))
+        return {"k": "block", "ops": ops}
+
+    extras = st.lists(st.one_of(rules["rdac_one"], rules["rdac_garbage"], rules["rdac_pfx"], rules["p2p_reg"], rules["p2p_rdac"], rules["p2p_ping"]), min_size=1, max_size=3)
+    rules["weave"] = st.builds(weave, trio, st.lists(st.tuples(st.integers(0, 2), st.sampled_from([1, 1, 2, 3, 4, 6, 9, 13]), st.one_of(st.none(), st.none(), st.integers(0, 5))),
+                                                     min_size=3, max_size=12), extras)
     return rules
 
 
@@ -961,10 +1187,62 @@ def drv_random(ctx: Ctx, sub: SubCheck):
     ctx.shards(work, list(range(16)))
 
 
+# ---- preludes (stimulus only) ----------------------------------------------------------------------------------------------
+
+
+def _op_other_handlers(a):
+    """sibling objects: another storage with its own two handlers serves sources with the SAME addresses as the case's peers (other content),
+    through registration, start-ups, a complete identification, a restart and a refused datagram"""
+    from okdmr.dmrlib.protocols.hytera.p2p_datagram_protocol import P2PDatagramProtocol
+    from okdmr.dmrlib.protocols.hytera.rdac_datagram_protocol import RDACDatagramProtocol
+    from okdmr.dmrlib.storage.repeater_storage import RepeaterStorage
+
+    _install_stub()
+    try:
+        storage = RepeaterStorage()
+        p2p, rdac = P2PDatagramProtocol(storage, p2p_port=P2P_PORT, rdac_port=RDAC_PORT), RDACDatagramProtocol(storage, callback=lambda _id: None)
+        p2p.connection_made(FakeTransport())
+        rdac.connection_made(FakeTransport())
+        fill = a.get("fill", "5a00")
+        for pr in a["peers"]:
+            addr = tuple(PEERS[pr % len(PEERS)])
+            grams = [(p2p, p2p_bytes({"kind": "reg", "n": 33, "fill": fill})), (p2p, p2p_bytes({"kind": "rdac", "n": 34, "fill": fill})), (rdac, b"\x00")]
+            grams += [(rdac, rdac_response(EXPECT[st], 220, fill)) for st in STEPS[1:-1][: a.get("steps", 12)]]
+            grams += [(rdac, rdac_response(0x00, 10, fill)), (rdac, b"\x01"), (p2p, p2p_bytes({"kind": "ping", "n": 12})), (p2p, p2p_bytes({"kind": "dmr", "n": 33, "b4": 255}))]
+            for h, data in grams:
+                try:
+                    h.datagram_received(data, addr)
+                except Exception:
+                    pass
+    finally:
+        _remove_stub()
+
+
+PRELUDE_OPS = {"other_handlers": _op_other_handlers}
+
+
+def _case_peers(x, found):
+    if isinstance(x, dict):
+        if "peer" in x and isinstance(x["peer"], int) and x["peer"] % len(PEERS) not in found:
+            found.append(x["peer"] % len(PEERS))
+        for v in x.values():
+            _case_peers(v, found)
+    elif isinstance(x, list):
+        for v in x:
+            _case_peers(v, found)
+    return found
+
+
+def prelude_for(sub, case, rng):
+    peers = _case_peers(case, [])[:3] or [0]
+    return [{"x": "other_handlers", "a": {"peers": peers, "fill": rng.choice(["5a00", "4100", "7e0400fa", "00"]), "steps": rng.choice([2, 3, 6, 10, 12])}}]
+
+
 SUBCHECKS = [
     SubCheck("p2p_exhaustive", oracle_history, drv_p2p, "all sequences over 27 P2P symbols (3 peers) up to length 3 (quick) / 4 (thorough)"),
     SubCheck("rdac_exhaustive", oracle_history, drv_rdac, "all sequences over 26 RDAC symbols from a fresh handler and from each of the 14 reachable steps of peer 0"),
     SubCheck("twin_peers", oracle_history, drv_twins, "sources sharing host or port or differing only in the spelling of the host: one registers, every request kind from the other; short sequences"),
+    SubCheck("interleaved_runs", oracle_history, drv_interleaved, "scripted interleavings of two or three peers' complete identification runs / P2P lives at every cut point, alternating, every merge; per-peer model and comparison with each source served alone"),
     SubCheck("symbol_runs", oracle_history, drv_runs, "every peer-0 symbol repeated 300 / 1000 times in each P2P mode and from each RDAC step, plain and with garbage interleaved"),
     SubCheck("random_histories", oracle_history, drv_random, "Hypothesis RuleBasedStateMachine: both handlers on one storage, 8 sources (partly overlapping addresses), random filler / lengths / texts, repeated blocks"),
 ]
